@@ -23,6 +23,7 @@ BASE_RULES = [
     (r"\bdiff \* t\b", "FMUL01(diff, t)", 0),
     (r"\(([^()]*->\w+(?:\[\w+\])? - [^()]*->\w+(?:\[\w+\])?)\) \* t\b", r"FMUL01((double)(\1), t)", 0),
     (r"const auto d = ", "const int d = ", 0),
+    (r"(\(\*\w+_\)) \* t\b", r"FMUL01(\1, t)", 0),      # a product with the interpolation parameter formed through a local reference
 ]
 
 
@@ -56,8 +57,13 @@ FP_ASSUMPTIONS = [
 
 
 def scalar_unit(name, entry, functions, canaries=(), backend="cadical", defines=None, timeout=900):
-    return dict(name=name, template="spaces/scalar.c", mode="plain", entry=entry, sources=scalar_sources(), flags=PFLAGS, level="proof",
-                functions=functions, canaries=list(canaries), backend=backend, defines=defines or {}, timeout=timeout)
+    srcs = scalar_sources()
+    pref = "so2_" if "so2" in entry else ("time_" if "time" in entry else ("disc_" if "disc" in entry else None))
+    d = dict(name=name, template="spaces/scalar.c", mode="plain", entry=entry, sources=srcs, flags=PFLAGS, level="proof",
+             functions=functions, canaries=list(canaries), backend=backend, defines=defines or {}, timeout=timeout)
+    if pref:
+        d["needs"] = [x["name"] for x in srcs if x["name"].startswith(pref)]    # a rewritten body of another space must not take this unit down
+    return d
 
 
 # ---------------------------------------------------------------- compound delegation loops
